@@ -49,6 +49,8 @@ class Search:
                     return s
             except Exception:
                 pass
+        if fname(t) == "item" and len(t.args) == 2 and not T.is_str_symbol(t.args[1]):
+            return self.sign_of(t.args[0])       # an element of an array the table speaks about
         return None
 
     def atoms(self, t, out: List):
@@ -67,8 +69,56 @@ class Search:
         if t not in out:
             out.append(t)
 
+    def input_like(self, t) -> bool:
+        if t.is_number or isinstance(t, sp.Symbol):
+            return True
+        if isinstance(t, sp.Tuple):
+            return all(self.input_like(a) for a in t.args)
+        f = fname(t)
+        if f == "item":
+            return all(self.input_like(a) for a in t.args)
+        if f is not None and self.sign_of(t) is not None:
+            return True         # an opaque quantity the assumption table speaks about (wavenumber, group velocity, ...)
+        if f in ("slc", "shape", "len"):
+            return all(self.input_like(a) for a in t.args)
+        if isinstance(t, (sp.Add, sp.Mul, sp.Pow)):
+            return all(self.input_like(a) for a in t.args)
+        return False
+
+    def scalar_like(self, t) -> bool:
+        """a factor that is one number for the whole array expression (a parameter read by key, a symbol declared scalar)"""
+        return fname(t) == "item" and T.is_str_symbol(t.args[1]) and isinstance(t.args[0], sp.Symbol) and str(t.args[0]) in ("par",)
+
+    def extent(self, t, env) -> int:
+        if t.is_number:
+            return int(t)
+        key = ("extent", t)
+        if key not in env:
+            env[key] = self.rng.choice([1, 2, 3])
+        return env[key]
+
+    def leaf(self, t) -> bool:
+        """something the search may choose: an input (symbol, element of an input) or an opaque quantity the assumption table
+        constrains; never a value computed by a construct this evaluator does not interpret"""
+        if isinstance(t, sp.Symbol):
+            return True
+        f = fname(t)
+        if f is not None and f not in STRUCT and f != "item" and self.sign_of(t) is not None:
+            return True
+        if f == "item":
+            return self.input_like(t)
+        return False
+
     def ev(self, t, env: Dict) -> float:
         if t in env:
+            return env[t]
+        if not t.is_number and self.leaf(t):
+            s = self.sign_of(t)
+            if s is None:
+                env[t] = self.rng.choice(GENERIC)
+            else:
+                pool = [v for v in GENERIC + POSITIVE if _in(v, s)]
+                env[t] = self.rng.choice(pool) if pool else 1.0
             return env[t]
         if t.is_number:
             if t in (sp.nan, sp.zoo, sp.oo, -sp.oo):
@@ -83,8 +133,31 @@ class Search:
             if not vals:
                 raise Invalid()
             return max(vals) if f in ("maximum", "max") else min(vals)
-        if f in ("loopsum", "loopsum_brk"):
-            return self.ev(t.args[0], env)          # a one-element sum: every element may take the sampled value
+        if f == "loopsum" and len(t.args) >= 3:
+            # a genuine sum over a small concrete extent: every term is evaluated at its own index (its elements are inputs of their own)
+            body, lv, rng = t.args[:3]
+            if fname(rng) not in ("range", "prange") or len(rng.args) not in (1, 2):
+                raise Invalid()
+            lo = 0 if len(rng.args) == 1 else int(round(self.ev(rng.args[0], env)))
+            hi = self.extent(rng.args[-1], env)
+            if hi - lo > 6:
+                raise Invalid()
+            return sum(self.ev(body.xreplace({lv: sp.Integer(i)}), env) for i in range(lo, hi))
+        if f == "loopsum_brk":
+            raise Invalid()
+        if f == "item":
+            base, idx = t.args
+            fb = fname(base)
+            if fb == "tabulate" and len(base.args) >= 4 and base.args[1] == base.args[3]:
+                return self.ev(base.args[2].xreplace({base.args[3]: idx}), env)
+            if fb == "store" and base.args[1] == idx:
+                return self.ev(base.args[2], env)
+            if isinstance(base, (sp.Add, sp.Mul)):
+                parts = [a if a.is_number or self.scalar_like(a) else T.op("item", a, idx) for a in base.args]
+                return self.ev(base.func(*parts), env)
+            if isinstance(base, sp.Pow) and base.args[1].is_number:
+                return self.ev(T.op("item", base.args[0], idx) ** base.args[1], env)
+            raise Invalid()
         if f == "pymod":
             a, b = self.ev(t.args[0], env), self.ev(t.args[1], env)
             if b == 0:
@@ -143,43 +216,50 @@ class Search:
         raise Invalid()
 
     def find(self, term, want: int, trials: int = 800, seed: int = 20260929) -> Optional[Tuple[Dict, float]]:
-        """an assignment under which `term` has a sign in `want`, respecting the assumptions; or None"""
+        """an assignment of the term's inputs under which `term` has a sign in `want`, respecting the assumptions; or None.
+        Inputs are sampled lazily while the term is evaluated: symbols, elements of input arrays (each index its own value) and
+        opaque quantities the assumption table constrains.  Loop summaries are evaluated over a small concrete extent.  Anything
+        else that is not interpreted makes the sample invalid, so the search abstains rather than invent a value for it."""
         term = T.strip_never(T.to_term(term))
-        atoms: List = []
-        self.atoms(term, atoms)
-        if len(atoms) > 40:
-            return None
-        # assumption-constrained composite sub-terms outside the atoms (atoms are sampled inside their sign set already)
+        # free index symbols (the bin the obligation is stated for) are fixed to position 0, so that the element they select and the
+        # elements enumerated by the sums are the same inputs
+        bound = {n.args[1] for n in sp.preorder_traversal(term) if fname(n) in ("loopsum", "loopsum_brk") and len(n.args) >= 2}
+        bound |= {n.args[3] for n in sp.preorder_traversal(term) if fname(n) == "tabulate" and len(n.args) >= 4}
+        idx_syms = set()
+        for n in sp.preorder_traversal(term):
+            if fname(n) == "item" and len(n.args) == 2:
+                ix = n.args[1]
+                for x in (ix.args if isinstance(ix, sp.Tuple) else [ix]):
+                    if isinstance(x, sp.Symbol) and x not in bound and not T.is_str_symbol(x) and str(x) not in ("None", "Ellipsis"):
+                        idx_syms.add(x)
+        if idx_syms:
+            term = term.xreplace({x: sp.Integer(0) for x in idx_syms})
         constrained: List = []
 
         def collect(t):
-            if t in atoms or t.is_number:
+            if t.is_number or isinstance(t, sp.Symbol):
                 return
-            if self.sign_of(t) is not None and t not in constrained:
+            if self.sign_of(t) is not None and not self.leaf(t) and t not in constrained:
                 constrained.append(t)
             for a in t.args:
                 collect(a)
         collect(term)
-        rng = random.Random(seed)
+        self.rng = random.Random(seed)
         for _ in range(trials):
-            env = {}
-            for a in atoms:
-                s = self.sign_of(a)
-                if s is None:
-                    env[a] = rng.choice(GENERIC)
-                else:
-                    pool = [v for v in GENERIC + POSITIVE if _in(v, s)]
-                    env[a] = rng.choice(pool) if pool else 1.0
+            env: Dict = {}
             try:
-                if any(not _in(self.ev(s, env), self.sign_of(s)) for s in constrained):
-                    continue
                 v = self.ev(term, env)
+                # composite sub-terms the assumption table speaks about must respect it under this sample (only those without free
+                # loop indices can be evaluated; the others were instantiated index by index inside the sums)
+                if any(not _in(self.ev(c_, env), self.sign_of(c_)) for c_ in constrained
+                       if not any(str(x).startswith("~i:") for x in c_.free_symbols)):
+                    continue
             except Invalid:
                 continue
             except Exception:
                 continue
             if _in(v, want) and v != 0:
-                return env, v
+                return {k: val for k, val in env.items() if isinstance(k, sp.Basic)}, v
         return None
 
 
